@@ -446,6 +446,28 @@ def wildcard_allows(nsc, tns, ns):
         if tok == ns and not tok.startswith('##'): return True
     return False
 
+def block_set(b):
+    out = set(b.split())
+    if '#all' in out: out = {'extension', 'restriction', 'substitution'}
+    return out
+
+def substitution_ok(head, m):
+    """Substitution Group OK (Transitive), Structures 3.3.6, for a member m whose affiliation chain reaches head (clause 2.2 holds by construction):
+    2.1 the head's {disallowed substitutions} must not contain substitution; 2.3 the derivation methods used between m's type and the head's
+    type must not meet the union of the head's {disallowed substitutions}, the head TYPE's {prohibited substitutions} and those of every
+    intermediate type (the member's own type's block does not count)."""
+    blocking = block_set(head.block)
+    if 'substitution' in blocking: return False
+    ht, t = head.typ, m.typ
+    if isinstance(ht, str) or isinstance(t, str): return True       # generated members of simple-typed heads have the head's type
+    methods = set()
+    while t is not ht:
+        if t is None: return False
+        methods.add(t.deriv)
+        t = t.base
+        if t is not None: blocking |= block_set(t.block)
+    return not (methods & blocking)
+
 class TypeModel:
     """content model of one complex type prepared for matching: leaves, term / all-group, attribution"""
     def __init__(self, schema, owner_tns, ct):
@@ -473,9 +495,9 @@ class TypeModel:
         """declaration governing child `key` when attributed to element leaf, or None if the leaf does not admit it"""
         d = leaf.decl
         if d.key() == key: return d
-        if d.is_global and 'substitution' not in d.block.split() and d.block != '#all':
+        if d.is_global:
             for m in self.schema.subst_members(d):
-                if m.key() == key: return m
+                if m.key() == key: return m if substitution_ok(d, m) else None
         return None
     def accepts(self, i, key):
         leaf = self.leaves[i]
@@ -689,6 +711,27 @@ def gen_child_type(g, depth=0):
     if k == 'attr': return CType(attrs=[AttrUse('x', 'string', d(st.sampled_from(['optional', 'optional', 'required'])))])
     return CType(content=('simple', 'int'), attrs=[AttrUse('x', 'string', 'optional')])
 
+BLOCKS = ['', '', '', 'extension', 'restriction', '#all', 'extension restriction']
+def gen_subst_types(g):
+    """head type HT and 1-2 types derived from it by extension / restriction, each with its own block -> [HT, T1(, T2)]"""
+    d = g.draw; s = g.s; lns = s.tns if s.efd == 'qualified' else ''
+    n = g.ntypes; g.ntypes += 1
+    hx = ElemDecl('hx', lns, 'string')
+    HT = CType('HT%d' % n, Particle('seq', 1, 1, [Particle('e', 0, 3, decl=hx)]), block=d(st.sampled_from(BLOCKS))); s.add_type(HT)
+    out = [HT]
+    chain = d(st.sampled_from([['e'], ['r'], ['e', 'e'], ['r', 'e'], ['r', 'r'], ['e'], ['r', 'e']]))
+    for i, step in enumerate(chain):
+        base = out[-1]; name = 'HT%d%s' % (n, 'ab'[i])
+        if step == 'e':
+            e = Particle('seq', 1, 1, [Particle('e', d(st.sampled_from([0, 1])), 1, decl=ElemDecl('hy' if i == 0 else 'hz', lns, 'string'))])
+            t = CType(name, Particle('seq', 1, 1, [base.content, e]), base=base, deriv='extension', ext_particle=e)
+        else:
+            k = base.content.ch[0].mx          # base content is (hx{0,k}): narrow the range (a textbook particle restriction)
+            t = CType(name, Particle('seq', 1, 1, [Particle('e', 0, k - 1, decl=hx)]), base=base, deriv='restriction')
+        t.block = d(st.sampled_from(BLOCKS)); t.own_attrs = []
+        s.add_type(t); out.append(t)
+    return out
+
 def gen_leaf(g, occ, allow_wild=True, under_rep=False):
     d = g.draw; s = g.s
     kinds = ['local', 'local', 'local', 'global']
@@ -715,7 +758,15 @@ def gen_leaf(g, occ, allow_wild=True, under_rep=False):
         return Particle('e', mn, mx, decl=decl)
     decl = ElemDecl(g.fresh(), s.tns, gen_child_type(g), is_global=True)
     s.elements.append(decl)
-    if k == 'subst':
+    if k == 'subst' and d(st.integers(0, 3)) > 0:
+        types = gen_subst_types(g)
+        decl.typ = types[0]
+        for _ in range(d(st.integers(1, 2))):
+            mt = d(st.sampled_from(types + types[1:]))
+            s.elements.append(ElemDecl(g.fresh(), s.tns, mt, is_global=True, subst=decl))
+        decl.block = d(st.sampled_from(['', '', '', 'extension', 'restriction', '#all', 'substitution', 'extension restriction']))
+        if d(st.integers(0, 7)) == 0: decl.abstract = True
+    elif k == 'subst':
         n = d(st.integers(1, 2))
         for _ in range(n):
             m = ElemDecl(g.fresh(), s.tns, decl.typ if isinstance(decl.typ, str) or decl.typ.name else 'string', is_global=True, subst=decl)
